@@ -32,6 +32,21 @@ mod p_atomic;
 use serde_json::{json, Value};
 
 pub fn handle(job: &Value) -> Value {
+    // evaluator scope events (hook verif_event in /repo): only the events of this job
+    let want_events = job.get("events").and_then(|b| b.as_bool()).unwrap_or(false);
+    let _ = chialisp::util::verif_take_events();
+    let mut r = handle_op(job);
+    let evs = chialisp::util::verif_take_events();
+    if want_events {
+        let parsed: Vec<Value> = evs.iter().take(400).filter_map(|l| util::parse_json(l).ok()).collect();
+        if let Some(o) = r.as_object_mut() {
+            o.insert("events".to_string(), Value::Array(parsed));
+        }
+    }
+    r
+}
+
+fn handle_op(job: &Value) -> Value {
     match job["op"].as_str().unwrap_or("") {
         "clvm" => ops_clvm::op_clvm(job),
         "serde" => ops_serde::op_serde(job),
